@@ -253,6 +253,10 @@ impl Session {
 
 // ------------------------------------------------------------------ request builders
 
+/// when non-zero, the client writes its block option values at this fixed width (leading zero bytes,
+/// at most 3 bytes in all): RFC 7252 §3.2 lets a sender do so and a recipient must accept it
+pub static BV_WIDTH: std::sync::atomic::AtomicUsize = std::sync::atomic::AtomicUsize::new(0);
+
 pub fn bv_bytes(num: usize, more: bool, szx: u8) -> Vec<u8> {
     let scalar = (num as u64) << 4 | (more as u64) << 3 | szx as u64;
     let mut out = vec![];
@@ -262,6 +266,10 @@ pub fn bv_bytes(num: usize, more: bool, szx: u8) -> Vec<u8> {
         v >>= 8;
     }
     out.reverse();
+    let w = BV_WIDTH.load(std::sync::atomic::Ordering::Relaxed).min(3);
+    while out.len() < w {
+        out.insert(0, 0);
+    }
     out
 }
 
@@ -1297,31 +1305,58 @@ pub fn run_slow_app(cx: &mut Ctx, rng: &mut Rng, shapes: &[ReqShape]) {
 /// reclamation: abandoned transfers do not hold memory after expiry + one more use (observed through the allocator)
 fn run_reclaim(cx: &mut Ctx, shapes: &[ReqShape]) {
     let shape = &shapes[0];
-    for n in [1usize, 5, 50] {
-        FakeClock::set_time(0);
-        let base = LIVE.load(Ordering::Relaxed);
-        let mut h: BlockHandler<u8> = BlockHandler::new(BlockHandlerConfig { max_total_message_size: 1152, cache_expiry_duration: Duration::from_millis(1000) });
-        for i in 0..n {
-            let mut s = shape.clone();
-            s.path = vec![format!("up{}", i).into_bytes()];
-            for b in 0..10 {
-                let mut req = CoapRequest::from_packet(s.spec(b as u16, Some(bv_bytes(b, true, 6)), None, &vec![7u8; 1024]).build(), 1u8);
-                let _ = h.intercept_request(&mut req);
+    // `next_use`: what the next use of the handler after the expiry is – 0: an unrelated request that is
+    // passed on, 1: a request the handler REJECTS (its options alone exceed the budget), 2: an
+    // intercept_response call for an unrelated exchange. Each of them is a use of the handler.
+    for next_use in 0..3 {
+        for n in [1usize, 5, 50] {
+            FakeClock::set_time(0);
+            let base = LIVE.load(Ordering::Relaxed);
+            let mut h: BlockHandler<u8> = BlockHandler::new(BlockHandlerConfig { max_total_message_size: 1152, cache_expiry_duration: Duration::from_millis(1000) });
+            for i in 0..n {
+                let mut s = shape.clone();
+                s.path = vec![format!("up{}", i).into_bytes()];
+                for b in 0..10 {
+                    let mut req = CoapRequest::from_packet(s.spec(b as u16, Some(bv_bytes(b, true, 6)), None, &vec![7u8; 1024]).build(), 1u8);
+                    let _ = h.intercept_request(&mut req);
+                }
             }
+            let held = LIVE.load(Ordering::Relaxed).saturating_sub(base);
+            FakeClock::advance_time(1001);
+            let mut s = shape.clone();
+            s.path = vec![b"unrelated".to_vec()];
+            let what = match next_use {
+                0 => {
+                    let mut req = CoapRequest::from_packet(s.spec(1, None, None, &[]).build(), 2u8);
+                    let _ = h.intercept_request(&mut req);
+                    "one unrelated request"
+                }
+                1 => {
+                    s.extra.push((15, vec![0x71; 1400]));
+                    let mut req = CoapRequest::from_packet(s.spec(1, None, None, &[]).build(), 2u8);
+                    let r = guarded(|| h.intercept_request(&mut req).is_err());
+                    if r != Some(true) {
+                        cx.stat("reclaim_rejected_request_was_not_rejected");
+                    }
+                    "one unrelated request that the handler rejects"
+                }
+                _ => {
+                    let mut req = CoapRequest::from_packet(s.spec(1, None, None, &[]).build(), 2u8);
+                    if let Some(r) = req.response.as_mut() {
+                        r.message.payload = b"ok".to_vec();
+                    }
+                    let _ = h.intercept_response(&mut req);
+                    "one unrelated intercept_response call"
+                }
+            };
+            let after = LIVE.load(Ordering::Relaxed).saturating_sub(base);
+            cx.stat_n(&format!("reclaim_{}_{}_held_bytes", next_use, n), held as u64);
+            cx.stat_n(&format!("reclaim_{}_{}_after_bytes", next_use, n), after as u64);
+            if held < n * 10 * 1024 || after > 8192 + held / 20 {
+                cx.oracle_fail("C20", &format!("BLK reclaim {} {}", next_use, n), &format!("{} abandoned uploads held {} bytes; after expiry and {} {} bytes are still held", n, held, what, after));
+            }
+            drop(h);
         }
-        let held = LIVE.load(Ordering::Relaxed).saturating_sub(base);
-        FakeClock::advance_time(1001);
-        let mut s = shape.clone();
-        s.path = vec![b"unrelated".to_vec()];
-        let mut req = CoapRequest::from_packet(s.spec(1, None, None, &[]).build(), 2u8);
-        let _ = h.intercept_request(&mut req);
-        let after = LIVE.load(Ordering::Relaxed).saturating_sub(base);
-        cx.stat_n(&format!("reclaim_{}_held_bytes", n), held as u64);
-        cx.stat_n(&format!("reclaim_{}_after_bytes", n), after as u64);
-        if held < n * 10 * 1024 || after > 8192 + held / 20 {
-            cx.oracle_fail("C20", &format!("BLK reclaim {}", n), &format!("{} abandoned uploads held {} bytes; after expiry and one unrelated request {} bytes are still held", n, held, after));
-        }
-        drop(h);
     }
 }
 
@@ -1390,6 +1425,22 @@ pub fn run(cx: &mut Ctx) {
         }
     }
     cx.exhaustive.push("Block2 downloads of every body length 0..3*blocksize+1 for block sizes 16, 32, 64 x client preference none / equal / larger".into());
+    // a client that writes its Block1/Block2 values at a fixed width (leading zero bytes): same transfers
+    for width in [1usize, 2, 3] {
+        BV_WIDTH.store(width, std::sync::atomic::Ordering::Relaxed);
+        for (i, &(m, len, pref)) in [(64usize, 100usize, None), (64, 100, Some(0u8)), (100, 333, Some(1)), (128, 500, Some(6)), (300, 700, Some(2)), (1152, 3000, Some(2)), (1152, 3000, None)].iter().enumerate() {
+            let shape = &shapes[i % shapes.len()];
+            let body = body_of(&mut rng, len);
+            let mut sess = Session::new(m, 60000);
+            run_download(cx, &Download { shape, ep: 1, m, body, resp_opts: vec![], first_szx: pref, reduce_at: if i == 6 { Some((1, 0)) } else { None }, followup_toks: vec![] }, &mut sess, true);
+        }
+        for (i, &(m, len, szx)) in [(64usize, 50usize, 0u8), (100, 200, 1), (128, 200, 2), (1152, 2100, 6)].iter().enumerate() {
+            let shape = &shapes[(i + 1) % shapes.len()];
+            let mut sess = Session::new(m, 60000);
+            run_upload(cx, &Upload { shape, ep: 1, m, body: body_of(&mut rng, len), szx, dups: vec![1], abandoned: None, dup_final: 0, fresh_tokens: false }, &mut sess);
+        }
+        BV_WIDTH.store(0, std::sync::atomic::Ordering::Relaxed);
+    }
     // replies whose repeatable options carry equal values (Location-Path /node/7/node, two equal ETags)
     for ropts in [vec![(8u16, b"node".to_vec()), (8, b"7".to_vec()), (8, b"node".to_vec())], vec![(4u16, vec![1, 2]), (4, vec![1, 2])], vec![(8u16, vec![]), (8, vec![]), (20, b"a=1".to_vec()), (20, b"a=1".to_vec())]] {
         for &m in &[64usize, 128] {
@@ -1533,6 +1584,59 @@ pub fn run(cx: &mut Ctx) {
                                 }
                             }
                         }
+                    }
+                }
+            }
+            report(cx, &sess, problems);
+        }
+    }
+    // an upload onto a key that still holds a cached response (the client did not fetch the rest of an
+    // earlier fragmented reply to the same method and path), the upload's requests carrying a Block2 option
+    // too (early negotiation of the response size): the upload rules apply unchanged – 2.31 + Block1 echo for
+    // a non-final block, 4.13 + Block1 hint for an oversized request without Block1
+    for shape in shapes.iter().take(2) {
+        for &(m, szx, b2szx) in &[(128usize, 0u8, 0u8), (128, 1, 0), (300, 2, 2), (1152, 4, 6)] {
+            let post = ReqShape { code: 2, ..shape.clone() };
+            let size = 16usize << szx;
+            let body = body_of(&mut rng, 3000);
+            let up = body_of(&mut rng, 2 * size);
+            let mut sess = Session::new(m, 60000);
+            let mut problems: Vec<(&'static str, String)> = vec![];
+            sess.step(Op::Req(1, post.spec(1, None, None, &[])));
+            let a = sess.step(Op::App(0x44, vec![], body.clone()));
+            let ov = overhead_of(&post.spec(2, Some(bv_bytes(0, true, szx)), Some(bv_bytes(0, false, b2szx)), &[]).build());
+            if a.outcome == Outcome::Ok(true) && m >= ov + 28 + size {
+                let o = sess.step(Op::Req(1, post.spec(2, Some(bv_bytes(0, true, szx)), Some(bv_bytes(0, false, b2szx)), &up[..size])));
+                let echo = o.resp.as_ref().and_then(|r| first_opt(r, 27)).and_then(|b| parse_bv(&b));
+                let code = o.resp.as_ref().map(|r| u8::from(r.header.code));
+                if o.outcome != Outcome::Ok(true) || code != Some(0x5f) || echo.map(|e| (e.0, e.2)) != Some((0, szx)) {
+                    problems.push(("C09", format!("non-final upload block 0 (with a Block2 option, a response to an earlier exchange still cached) was not answered 2.31 with a Block1 echo: {} code {:?} Block1 {:?}", o.outcome.token(), code, echo)));
+                }
+                let big = sess.step(Op::Req(1, post.spec(3, None, Some(bv_bytes(0, false, b2szx)), &vec![0x42u8; m + 10])));
+                let code = big.resp.as_ref().map(|r| u8::from(r.header.code));
+                let hint = big.resp.as_ref().and_then(|r| first_opt(r, 27));
+                if big.outcome != Outcome::Ok(true) || code != Some(0x8d) || hint.is_none() {
+                    problems.push(("C09", format!("oversized request without Block1 (with a Block2 option, a response still cached) was not answered 4.13 with a Block1 hint: {} code {:?}", big.outcome.token(), code)));
+                }
+            }
+            report(cx, &sess, problems);
+        }
+    }
+    // a follow-up for a cached response arrives in a message that gets no reply prepared (type ACK / RST):
+    // whatever the handler does, a reply never carries another exchange's message id or token
+    for shape in shapes.iter().take(2) {
+        for typ in [2u8, 3] {
+            let body = body_of(&mut rng, 200);
+            let mut sess = Session::new(64, 60000);
+            let mut problems: Vec<(&'static str, String)> = vec![];
+            sess.step(Op::Req(1, shape.spec(100, None, None, &[])));
+            let a = sess.step(Op::App(0x45, vec![], body.clone()));
+            if a.outcome == Outcome::Ok(true) {
+                let odd = ReqShape { typ, tok: vec![0xCC], ..shape.clone() };
+                let o = sess.step(Op::Req(1, odd.spec(101, None, Some(bv_bytes(1, false, 0)), &[])));
+                if let Some(r) = &o.resp {
+                    if r.header.message_id != 101 || r.get_token() != &[0xCC][..] {
+                        problems.push(("C12", format!("a request without a prepared reply (type {}) got a reply carrying mid {} / token {} – those of the exchange that populated the cache – instead of its own 101 / cc", typ, r.header.message_id, hex(r.get_token()))));
                     }
                 }
             }
@@ -1840,6 +1944,11 @@ pub fn run(cx: &mut Ctx) {
         (ReqShape { path: vec![b"a".to_vec(), b"b".to_vec(), b"".to_vec(), b"".to_vec()], ..base.clone() }, 1, "two trailing empty segments"),
         (ReqShape { path: vec![b"A".to_vec(), b"b".to_vec()], ..base.clone() }, 1, "letter case"),
         (ReqShape { path: vec![b"a".to_vec(), b"b".to_vec()], extra: vec![(15, b"x=1".to_vec())], ..base.clone() }, 2, "endpoint (with a query)"),
+        // a shorter path whose OTHER options spell the missing segment: /a?b, ?a&b, /a with Location-Path b
+        (ReqShape { path: vec![b"a".to_vec()], extra: vec![(15, b"b".to_vec())], ..base.clone() }, 1, "prefix + query equal to the missing segment"),
+        (ReqShape { path: vec![], extra: vec![(15, b"a".to_vec()), (15, b"b".to_vec())], ..base.clone() }, 1, "no path, queries equal to the segments"),
+        (ReqShape { path: vec![b"a".to_vec()], extra: vec![(8, b"b".to_vec())], ..base.clone() }, 1, "prefix + Location-Path equal to the missing segment"),
+        (ReqShape { path: vec![b"b".to_vec()], extra: vec![(3, b"a".to_vec())], ..base.clone() }, 1, "Uri-Host + path"),
     ];
     let body1 = body_of(&mut rng, 70);
     let body2 = body_of(&mut rng, 60);
@@ -1921,6 +2030,39 @@ pub fn run(cx: &mut Ctx) {
         run_lifetime(cx, &mut rng, &shapes);
         run_keepalive(cx, &mut rng, &shapes);
         run_keepalive(cx, &mut rng, &shapes);
+    }
+    // the smallest expiries, zero included: "idle longer than the configured expiry" holds after any
+    // positive idle time when the expiry is zero – the configured value is what counts, whatever it is
+    for ttl in [0u64, 1, 2] {
+        for idle in [1u64, 2, 3, 50, 119_000] {
+            for kind in 0..2 {
+                let shape = &shapes[0];
+                let mut sess = Session::new(64, ttl);
+                let mut problems: Vec<(&'static str, String)> = vec![];
+                let body = body_of(&mut rng, 100);
+                if kind == 0 {
+                    sess.step(Op::Req(1, shape.spec(1, None, None, &[])));
+                    sess.step(Op::App(0x45, vec![], body.clone()));
+                } else {
+                    sess.step(Op::Req(1, shape.spec(1, Some(bv_bytes(0, true, 0)), None, &body[..16])));
+                }
+                sess.step(Op::Tick(idle));
+                if kind == 0 {
+                    let o = sess.step(Op::Req(1, shape.spec(9, None, Some(bv_bytes(1, false, 0)), &[])));
+                    let live = idle <= ttl;
+                    if live != (o.outcome == Outcome::Ok(true)) {
+                        problems.push(("C20", format!("cached response idle for {} ms under expiry {} ms: follow-up answered {}", idle, ttl, o.outcome.token())));
+                    }
+                } else {
+                    let o = sess.step(Op::Req(1, shape.spec(9, Some(bv_bytes(1, false, 0)), None, &body[16..24])));
+                    let want: Vec<u8> = if idle <= ttl { body[..24].to_vec() } else { [vec![0u8; 16], body[16..24].to_vec()].concat() };
+                    if o.outcome != Outcome::Ok(false) || o.req_payload != want {
+                        problems.push(("C20", format!("upload buffer idle for {} ms under expiry {} ms: final block delivered {} bytes, expected {}", idle, ttl, o.req_payload.len(), want.len())));
+                    }
+                }
+                report(cx, &sess, problems);
+            }
+        }
     }
     // retention with many intervening keys
     for n_other in [1usize, 50, 1100, 2000] {
